@@ -9,6 +9,8 @@ package c19
 //	        out: value ∈ "" (omitted), stdout, -, out.txt        in: "" (omitted), stdin, -, = (empty text), file
 
 import (
+	"bytes"
+	"compress/gzip"
 	"strings"
 
 	"verifharness/core"
@@ -74,5 +76,84 @@ func ioCases(c *core.Ctx, r *runner, only string) {
 			run("file", []string{s.flag, "{" + s.stdin + "}"}, "")
 		}
 		c.Emit("C19.io", s.kind, s.name, core.Escape("gotree "+s.path), s.flag, b.String())
+	}
+}
+
+// ---------------------------------------------------------------- input FILE NAMES
+//
+//	C19.fname name path runs     runs: [file name, kind of text in it, outcome with --format omitted,
+//	                                     outcome with --format=newick (the documented default) spelled out]
+//
+// The same text under different file names (.nex .nexus .xml .phyloxml .nwk, none, upper case, .gz):
+// a reader that derives the input format from the NAME of the file when the option was not given makes
+// "omitted" differ from "documented default spelled out" for some names only (seeded C19-10).
+
+var fnameSuffixes = []string{"", ".nwk", ".nex", ".nexus", ".xml", ".phyloxml", ".NEX", ".Nexus", ".nex.gz", ".nwk.gz", ".phyloxml.gz", ".tree.nex", ".json"}
+
+func gz(s string) string {
+	var b bytes.Buffer
+	w := gzip.NewWriter(&b)
+	w.Write([]byte(s))
+	w.Close()
+	return b.String()
+}
+
+// fnameInputs adds, for every suffix, the inputs tree / trees / rooted / treenexus under a name with that suffix
+func fnameInputs(in inputs) {
+	for _, base := range []string{"tree", "trees", "rooted", "treenexus"} {
+		for _, sfx := range fnameSuffixes {
+			c := in[base]
+			if strings.HasSuffix(sfx, ".gz") {
+				c = gz(c)
+			}
+			in["fn_"+base+sfx] = c
+		}
+	}
+}
+
+type fnameSet struct {
+	name, path string
+	args       []string // "{F}" is replaced by the file under test
+	base       string   // which text the file holds
+	kind       string
+	stdin      string
+}
+
+func fnameSets() []fnameSet {
+	return []fnameSet{
+		{"stats-i", "stats", []string{"-i", "{F}"}, "tree", "newick", ""},                                   // readTrees
+		{"consensus-i", "compute consensus", []string{"-i", "{F}"}, "trees", "newick", ""},                    // readTrees (anchored)
+		{"compare-trees-i", "compare trees", []string{"-i", "{F}", "-c", "{trees}"}, "tree", "newick", ""},    // readTree
+		{"compare-trees-c", "compare trees", []string{"-i", "{tree}", "-c", "{F}"}, "trees", "newick", ""},    // readTrees
+		{"merge-i", "merge", []string{"-i", "{F}"}, "rooted", "newick", "other"},                              // readTree (anchored)
+		{"annotate-c", "annotate", []string{"-i", "{tree}", "-c", "{F}"}, "tree", "newick", ""},               // readTree (anchored)
+		{"reformat-i", "reformat newick", []string{"-i", "{F}"}, "tree", "newick", ""},                        // --input-format alias
+		{"stats-i-nexus", "stats", []string{"-i", "{F}"}, "treenexus", "nexus", ""},                           // Nexus text: refused either way
+	}
+}
+
+func fnameCases(c *core.Ctx, r *runner, only string) {
+	if _, ok := r.in["fn_tree.nex"]; !ok {
+		fnameInputs(r.in)
+	}
+	for _, s := range fnameSets() {
+		if only != "" && only != s.name {
+			continue
+		}
+		var b strings.Builder
+		for _, sfx := range fnameSuffixes {
+			file := "fn_" + s.base + sfx
+			args := make([]string, len(s.args))
+			for i, a := range s.args {
+				if a == "{F}" {
+					a = "{" + file + "}"
+				}
+				args[i] = a
+			}
+			o0 := r.invoke(strings.Fields(s.path), r.subst(args), s.stdin)
+			o1 := r.invoke(strings.Fields(s.path), r.subst(append(append([]string{}, args...), "--format=newick")), s.stdin)
+			b.WriteString(core.StrList([]string{file, s.kind, o0, o1}) + ";")
+		}
+		c.Emit("C19.fname", s.name, core.Escape("gotree "+s.path), b.String())
 	}
 }
